@@ -206,12 +206,15 @@ fn drive_writer<A: WriteVolatile, B: Write>(rep: &Rep, l: usize, pos: u64, seq: 
             return;
         }
         let failed = matches!(ra, R::Eof | R::WriteZero | R::OtherErr(_));
-        if failed && c.exact {
-            return;
-        }
+        // a failed write_all is compared too: what std's sinks do with the part that fits and
+        // with their position is fixed by their write(), which write_all is documented to call
+        // until it fails
         let (sa, sb) = state(a, b);
         if sa != sb {
-            rep.bad("stream-state", l, pos, seq, i, format!("volatile sink state {} vs std {}", sa, sb));
+            rep.bad(if failed && c.exact { "stream-state-after-failed-write_all" } else { "stream-state" }, l, pos, seq, i, format!("volatile sink state {} vs std {}", sa, sb));
+            return;
+        }
+        if failed && c.exact {
             return;
         }
     }
